@@ -1118,3 +1118,44 @@ V('c05-seed-orphan-node-dropped', 'C05', 'C05.R4', (HD, '''                    l
                     if self.0.get(&key).map_or(false, |n| n.rdeps.is_empty()) {
                         self.0.remove(&key);
                     }'''))
+V('c10-descriptor-always-reloadable', 'C10', 'C10.R7', (K, '''        &Self {
+            hot_reloaded: T::HOT_RELOADED,
+            load: load_entry::<T>,
+        }''', '''        &Self {
+            hot_reloaded: true,
+            load: load_entry::<T>,
+        }'''))
+V('c10-arc-ignores-opt-out', 'C10', 'C10.R7', (AS, '''        Ok(Arc::new(asset))
+    }
+
+    const HOT_RELOADED: bool = T::HOT_RELOADED;''', '''        Ok(Arc::new(asset))
+    }
+
+    const HOT_RELOADED: bool = true;'''))
+V('c16-seed-shrink-after-capacity', 'C16', 'C16.R1', (BY, '''            let bytes = std::mem::ManuallyDrop::new(bytes);
+            let bytes_ptr = bytes.as_ptr();
+            let len = bytes.len();
+            let capacity = bytes.capacity();''', '''            let mut bytes = std::mem::ManuallyDrop::new(bytes);
+            let len = bytes.len();
+            let capacity = bytes.capacity();
+            if capacity / 2 > len {
+                bytes.shrink_to_fit();
+            }
+            let bytes_ptr = bytes.as_ptr();'''))
+V('c12-seed-reset-after-build', 'C12', 'C12.R7', (HW, '''    id_builder.reset();
+
+    // The root directory itself has the empty id
+    if path == root {
+        return Some(OwnedDirEntry::Directory(id_builder.join()));
+    }
+''', '''    // The root directory itself has the empty id
+    if path == root {
+        return Some(OwnedDirEntry::Directory("".into()));
+    }
+'''), (HW, '''    let id = id_builder.join();
+
+    let entry = if path.is_dir() {''', '''    let id = id_builder.join();
+    id_builder.reset();
+
+    let entry = if path.is_dir() {'''))
+V('c12-benign-root-literal', 'C12', 'silent', (HW, '''        return Some(OwnedDirEntry::Directory(id_builder.join()));''', '''        return Some(OwnedDirEntry::Directory("".into()));'''))
